@@ -342,6 +342,12 @@ def talkpagename_fn(
         prefix = ctx.title[:ofs]
         if prefix not in ctx.NAMESPACE_DATA:
             return ctx.NAMESPACE_DATA["Talk"]["name"] + ":" + ctx.title
+        if ctx.NAMESPACE_DATA[prefix].get("istalk"):
+            # The talk page of a talk page is the page itself
+            return ctx.title
+        if prefix + " talk" not in ctx.NAMESPACE_DATA:
+            # Namespaces without talk pages (Special, Media)
+            return ""
         return (
             ctx.NAMESPACE_DATA[prefix + " talk"]["name"]
             + ":"
@@ -394,6 +400,10 @@ def talkspace_fn(
     t = expander(args[0]) if args else ctx.title or "ERROR_NAMESPACE"
     for prefix in ctx.NAMESPACE_DATA:
         if t.startswith(prefix + ":"):
+            if ctx.NAMESPACE_DATA[prefix].get("istalk"):
+                return ctx.NAMESPACE_DATA[prefix]["name"]
+            if prefix + " talk" not in ctx.NAMESPACE_DATA:
+                return ""  # Namespaces without talk pages (Special, Media)
             return ctx.NAMESPACE_DATA[prefix + " talk"]["name"]
     return ctx.NAMESPACE_DATA["Talk"]["name"]
 
